@@ -8,8 +8,8 @@ import vlib, hbuild
 
 VERIF = vlib.VERIF
 KNOWN_FILE = os.path.join(VERIF, "KNOWN_FINDINGS.txt")
-EVID_DIR = os.path.join(VERIF, "evidence")
-REPLAY_DIR = os.path.join(VERIF, "replays")
+EVID_DIR = os.environ.get("VERIF_EVIDENCE_DIR") or os.path.join(VERIF, "evidence")  # override: scratch runs against other trees (back-attribution) must not touch the real evidence
+REPLAY_DIR = os.environ.get("VERIF_REPLAY_DIR") or os.path.join(VERIF, "replays")
 SCHEMA = "/root/.vp/EVIDENCE.schema.json"
 SCHEMA_LOCAL = os.path.join(VERIF, "support", "EVIDENCE.schema.json")
 
@@ -251,10 +251,41 @@ def case_meta(path):
     return mod, libcfg
 
 
+INTERNAL_EXPORTS = {  # exported helpers that are not API entry points (reached through the API rows)
+    "_decomp_s", "_towcase", "_towfc_single", "_towupper", "handle_mem_bos_chk_warn", "handle_str_bos_chk_warn",
+    "handle_str_bos_overflow", "handle_str_src_bos_chk_warn", "invoke_safe_mem_constraint_handler",
+    "invoke_safe_str_constraint_handler", "isComp2nd", "isExclusion", "isNonStDecomp", "isSingleton", "mem_prim_move",
+    "mem_prim_move16", "mem_prim_move32", "mem_prim_move8", "mem_prim_set", "mem_prim_set16", "mem_prim_set32",
+    "safec_fmt_has_n", "safec_wfmt_has_n", "safec_vsnprintf_s", "_dec_w16", "_combin_class", "_composite_cp"}
+
+
+def uncovered_exports(libdir):
+    """'all functions' is measured, not assumed: exported text symbols of the freshly built library that no harness,
+    model or external check refers to by name (minus the internal helpers above)"""
+    lib = os.path.join(libdir, "libsafec.a")
+    if not os.path.exists(lib):
+        return None
+    r = subprocess.run(["nm", "-g", "--defined-only", lib], capture_output=True, text=True)
+    syms = sorted({l.split()[2] for l in r.stdout.splitlines() if len(l.split()) == 3 and l.split()[1] == "T"})
+    text = ""
+    for pat in ("harness/*.c", "harness/*.h", "props/*/*.py", "props/*/*.c"):
+        for f in glob.glob(os.path.join(VERIF, pat)):
+            text += open(f, errors="replace").read()
+    words = set(re.findall(r"[A-Za-z_][A-Za-z0-9_]*", text))
+    out = []
+    for sym in syms:
+        if sym in INTERNAL_EXPORTS:
+            continue
+        base = sym[1:-4] if sym.startswith("_") and sym.endswith("_chk") else sym
+        if sym not in words and base not in words:
+            out.append(sym)
+    return out
+
+
 def run_cs_property(prop, tier, campaigns, level="exploration", assumptions=(), dev=False, extra_cov=None):
     """Standard flow for a property decided by cs modules."""
     t0 = time.time()
-    outdir = os.path.join(VERIF, "build", "runs", prop)
+    outdir = os.path.join(os.environ.get("VERIF_RUNS_DIR") or os.path.join(VERIF, "build", "runs"), prop)
     os.makedirs(outdir, exist_ok=True)
     for c in campaigns:
         c.run(tier, outdir)
@@ -296,7 +327,7 @@ def run_cs_property(prop, tier, campaigns, level="exploration", assumptions=(), 
     cov = dict(evaluations=ev_total, distinct_nontrivial=distinct,
                rule="; ".join(sorted({c.summary["rule"] for c in campaigns})),
                samples=samples[:12],
-               exhaustive=all(c.summary.get("enum_complete", False) for c in campaigns) and all(c.summary.get("enum_cases", 0) > 0 for c in campaigns),
+               exhaustive=all(c.summary.get("enum_complete", False) for c in campaigns if c.libcfg != "fuzz") and all(c.summary.get("enum_cases", 0) > 0 for c in campaigns if c.libcfg != "fuzz"),
                exhaustive_note="the phase-0 small-scope lattice of each module was enumerated completely (enum_cases); the random phase is sampled",
                enum_cases=sum(c.summary.get("enum_cases", 0) for c in campaigns),
                campaigns=[dict(module=c.module, libcfg=c.libcfg, evaluations=c.summary["evaluations"],
@@ -308,6 +339,14 @@ def run_cs_property(prop, tier, campaigns, level="exploration", assumptions=(), 
                regression_replays=[dict(kind=k, replay=os.path.relpath(p, VERIF), fails=(code == 1)) for k, e, p, code, key in reg])
     if extra_cov:
         cov.update(extra_cov)
+    try:
+        unc = uncovered_exports(os.path.dirname(campaigns[0].harness))
+        if unc is not None:
+            cov["uncovered_exports"] = unc
+            for sym in unc:
+                lines.append("UNCOVERED-EXPORT: %s (exported by the library, referenced by no check; not a violation)" % sym)
+    except Exception:
+        pass
     if distinct < 2:
         lines.append("BROKEN: generator produced fewer than 2 distinct non-trivial cases")
     write_evidence(prop, tier, level, cov, list(assumptions), time.time() - t0, nviol)
